@@ -743,8 +743,6 @@ impl Session {
                 if p == 0 {
                     self.peers[p].app.add_plugins(ServerPlugin { parameters: params });
                 } else {
-                    // client ids are the creation time in milliseconds: keep them distinct
-                    std::thread::sleep(std::time::Duration::from_millis(3));
                     self.peers[p].app.add_plugins(ClientPlugin { parameters: params });
                     let id = self.peers[p].app.world().resource::<NetcodeClientTransport>().client_id().raw();
                     self.peers[p].client_id = Some(id);
@@ -985,13 +983,14 @@ impl Session {
                 .collect();
             writeln!(
                 self.out,
-                "NET {} clients={} status={} srvt={} clit={} events={}",
+                "NET {} clients={} status={} srvt={} clit={} events={} cid={}",
                 p,
                 if list.is_empty() { "-".into() } else { list },
                 status,
                 has_srv as u8,
                 has_cli as u8,
-                if evs.is_empty() { "-".to_string() } else { evs.join(",") }
+                if evs.is_empty() { "-".to_string() } else { evs.join(",") },
+                world.get_resource::<NetcodeClientTransport>().map(|t| t.client_id().raw().to_string()).unwrap_or("-".into())
             )
             .unwrap();
             self.peers[p].prev_clients = clients;
